@@ -266,6 +266,11 @@ class ClassParser(BaseParser):
 
             context = self.options.make_context(_obj_self.__class__, force_error=True)
             value = field.parse_value(value, context=context)
+            if unprovided(value):
+                # dropped by the field's on_error policy: the attribute becomes absent
+                # (never store the `unprovided` marker as a value)
+                _obj_self.__dict__.pop(field.attname, None)
+                return
             _obj_self.__dict__[field.attname] = value
             if callable(post_setattr):
                 post_setattr(_obj_self, field, value, context)
